@@ -2,8 +2,8 @@
 BIN := $(B)/bin
 $(BIN):
 	@mkdir -p $(BIN)
--include /verif/harness/exa.mk
--include /verif/harness/exb.mk
--include /verif/harness/exc.mk
--include /verif/harness/exd.mk
--include /verif/harness/exe.mk
+-include $(HSRC)/exa.mk
+-include $(HSRC)/exb.mk
+-include $(HSRC)/exc.mk
+-include $(HSRC)/exd.mk
+-include $(HSRC)/exe.mk
